@@ -1,2 +1,41 @@
-(* C08 — placeholder until the proofs land. *)
-From Goag Require Import Model.Json Spec.JsonSpec.
+(* C08 — decoding is strict on required/type errors (proved for every schema)
+   and lossless on valid documents (proved for the documents the encoder
+   produces: C06_roundtrip; for arbitrary valid documents the statement is
+   checked by the correspondence run, not proved — partial). *)
+From Coq Require Import List ZArith.
+Import ListNotations.
+From Goag Require Import Base.Str Model.Params Model.Json Spec.JsonSpec
+     Proofs.JsonEncProofs Proofs.JsonRtProofs Proofs.JsonStrictProofs.
+
+(* a document that lacks a required property is rejected *)
+Theorem C08_missing_required : forall parse_num parse_time ms addl members k sf v,
+  In (MField k true, sf) ms -> ~ In k (keys members) ->
+  dec parse_num parse_time (JObjS ms addl) (JObj members) <> Ok v.
+Proof. exact missing_required_rejected. Qed.
+Print Assumptions C08_missing_required.
+
+(* a non-null value of the wrong JSON type for a declared property is rejected *)
+Theorem C08_wrong_type : forall parse_num parse_time ms addl members k req p x v,
+  NoDup (dk ms) -> In (MField k req, JPrimS p) ms ->
+  kv_get (kv_of_members members) k = Some x ->
+  x <> JNull -> valid_prim parse_num parse_time p x = false ->
+  dec parse_num parse_time (JObjS ms addl) (JObj members) <> Ok v.
+Proof. exact wrong_type_rejected. Qed.
+Print Assumptions C08_wrong_type.
+
+(* ... and for nested schemas: an accepted document's declared properties all
+   decode under their own schemas *)
+Theorem C08_declared_properties_decode : forall parse_num parse_time addl ms m fs m' ad,
+  dec_inner parse_num parse_time addl ms m = Ok (fs, m', ad) -> NoDup (dk ms) ->
+  forall k req sf raw, In (MField k req, sf) ms -> kv_get m k = Some raw ->
+    exists x mx, dec_items parse_num parse_time sf raw [] false = Ok (x, mx).
+Proof. exact inner_wrong_type. Qed.
+Print Assumptions C08_declared_properties_decode.
+
+(* lossless on what the encoder produces *)
+Theorem C08_lossless_on_encodings : forall fmt_float fmt_time parse_num parse_time,
+  (forall b r, parse_num b (fmt_float b r) = Some r) ->
+  (forall r, parse_time (fmt_time r) = Some r) ->
+  forall s v j, rt_ok s v -> enc fmt_float fmt_time s v = Ok j -> dec parse_num parse_time s j = Ok v.
+Proof. exact roundtrip. Qed.
+Print Assumptions C08_lossless_on_encodings.
